@@ -277,7 +277,7 @@ def register(reg):
         fixed = ast.fix_missing_locations(_pythonize(copy.copy(r)))
         for new, old in zip(as_list(fixed.args)[1:], orig["args"]):
             if isinstance(old, ast.Starred):
-                ok_lines = ok_lines and getattr(new, "lineno", None) == old.lineno and getattr(new.value, "lineno", None) == old.value.lineno
+                ok_lines = ok_lines and getattr(new, "lineno", None) == old.lineno and getattr(getattr(new, "value", None), "lineno", None) == old.value.lineno
         eng.check(f"{n}#wrapped_star_argument_keeps_its_line", ok_lines, detail="the new Starred/wrapStarredValue nodes get the line of the whole call")
 
     def _pythonize(node):
